@@ -1,4 +1,774 @@
 package main
 
-func cmdCheck(args []string) int  { return 2 }
-func cmdReplay(args []string) int { return 2 }
+import (
+	"bufio"
+	"bytes"
+	"crypto/sha256"
+	"encoding/json"
+	"flag"
+	"fmt"
+	"os"
+	"os/exec"
+	"path/filepath"
+	"regexp"
+	"sort"
+	"strconv"
+	"strings"
+	"sync"
+	"time"
+
+	"golang.org/x/tools/go/ssa"
+
+	"gosx/sx"
+)
+
+// harnessSpec is parsed from "//gosx:" directives above a ZZ_ function.
+type harnessSpec struct {
+	File     string // overlay path under /repo
+	RelDir   string // package dir relative to repo root
+	Func     string
+	Property string
+	Tier     string // quick | thorough
+	Opts     map[string]string
+	Validate bool // ZZV_ translator-validation harness (concrete)
+}
+
+var funcRe = regexp.MustCompile(`^func (ZZV?_[A-Za-z0-9_]+)\(\)`)
+
+func scanHarnesses() ([]*harnessSpec, error) {
+	var out []*harnessSpec
+	err := filepath.Walk(harnessDir, func(p string, info os.FileInfo, err error) error {
+		if err != nil || info.IsDir() || !strings.HasSuffix(p, ".go") || strings.HasSuffix(p, "_test.go") {
+			return err
+		}
+		rel, _ := filepath.Rel(harnessDir, p)
+		f, err := os.Open(p)
+		if err != nil {
+			return err
+		}
+		defer f.Close()
+		sc := bufio.NewScanner(f)
+		sc.Buffer(make([]byte, 1<<20), 1<<20)
+		var pending map[string]string
+		fileDef := map[string]string{}
+		for sc.Scan() {
+			line := sc.Text()
+			if strings.HasPrefix(line, "//gosx:file ") {
+				for _, kv := range strings.Fields(strings.TrimPrefix(line, "//gosx:file ")) {
+					if i := strings.Index(kv, "="); i > 0 {
+						fileDef[kv[:i]] = kv[i+1:]
+					}
+				}
+				continue
+			}
+			if strings.HasPrefix(line, "//gosx:") {
+				if pending == nil {
+					pending = map[string]string{}
+				}
+				for _, kv := range strings.Fields(strings.TrimPrefix(line, "//gosx:")) {
+					if i := strings.Index(kv, "="); i > 0 {
+						pending[kv[:i]] = kv[i+1:]
+					} else {
+						pending[kv] = "true"
+					}
+				}
+				continue
+			}
+			if m := funcRe.FindStringSubmatch(line); m != nil && pending != nil {
+				for k, v := range fileDef {
+					if _, ok := pending[k]; !ok {
+						pending[k] = v
+					}
+				}
+				h := &harnessSpec{File: filepath.Join(repoDir, rel), RelDir: filepath.Dir(rel), Func: m[1], Opts: pending,
+					Property: pending["property"], Tier: pending["tier"], Validate: strings.HasPrefix(m[1], "ZZV_")}
+				if h.Tier == "" {
+					h.Tier = "quick"
+				}
+				out = append(out, h)
+			}
+			if !strings.HasPrefix(line, "//") {
+				pending = nil
+			}
+		}
+		return sc.Err()
+	})
+	return out, err
+}
+
+func (h *harnessSpec) options(tier string) sx.Options {
+	o := sx.Options{}
+	get := func(k string) string {
+		if v, ok := h.Opts[k+"."+tier]; ok {
+			return v
+		}
+		return h.Opts[k]
+	}
+	if v := get("unwind"); v != "" {
+		o.Unwind, _ = strconv.Atoi(v)
+	}
+	if v := get("timeout"); v != "" {
+		o.TimeoutMs, _ = strconv.Atoi(v)
+	}
+	if v := get("maxseconds"); v != "" {
+		o.MaxSeconds, _ = strconv.Atoi(v)
+	}
+	if v := get("maxpaths"); v != "" {
+		o.MaxPaths, _ = strconv.Atoi(v)
+	}
+	o.Solver = get("solver")
+	o.NLSolver = get("nlsolver")
+	o.StrictCap = get("strictcap") == "true"
+	if v := get("init"); v != "" {
+		o.InitPkgs = strings.Split(v, ",")
+	}
+	o.Params = map[string]string{}
+	for k, v := range h.Opts {
+		if strings.HasPrefix(k, "p.") {
+			o.Params[strings.TrimPrefix(k, "p.")] = v
+		}
+	}
+	for k, v := range h.Opts {
+		if strings.HasPrefix(k, "p.") && strings.HasSuffix(k, "."+tier) {
+			o.Params[strings.TrimSuffix(strings.TrimPrefix(k, "p."), "."+tier)] = v
+		}
+	}
+	return o
+}
+
+// ---- known findings ----
+
+type knownEntry struct {
+	Property string `json:"property"`
+	ID       string `json:"id"`
+	Status   string `json:"status"` // "known" | "fixed"
+	Harness  string `json:"harness,omitempty"`
+	Kind     string `json:"kind,omitempty"`
+	Name     string `json:"name,omitempty"`
+	Site     string `json:"site,omitempty"`
+	Region   string `json:"region,omitempty"` // name of a Go predicate in the harness package
+	What     string `json:"what"`
+	Commit   string `json:"commit,omitempty"`
+}
+
+func loadKnown() ([]knownEntry, error) {
+	b, err := os.ReadFile(filepath.Join(verifDir, "known_findings.json"))
+	if err != nil {
+		if os.IsNotExist(err) {
+			return nil, nil
+		}
+		return nil, err
+	}
+	var ks []knownEntry
+	if err := json.Unmarshal(b, &ks); err != nil {
+		return nil, fmt.Errorf("known_findings.json: %v", err)
+	}
+	return ks, nil
+}
+
+// ---- running ----
+
+type harnessResult struct {
+	Spec     *harnessSpec
+	E        *sx.Explorer
+	Complete bool
+	Wall     time.Duration
+	TwinOK   bool
+	TwinNote string
+	Err      string
+	Funcs    []funcInfo
+}
+
+type funcInfo struct {
+	Name   string `json:"name"`
+	Instrs int    `json:"ssa_instrs"`
+	Hash   string `json:"src_sha,omitempty"`
+	Calls  int    `json:"calls"`
+}
+
+func cmdCheck(args []string) int {
+	fs := flag.NewFlagSet("check", flag.ExitOnError)
+	tier := fs.String("tier", envOr("VERIF_TIER", "quick"), "quick|thorough")
+	only := fs.String("only", "", "run only harnesses whose name contains this")
+	workers := fs.Int("j", 16, "parallel harnesses")
+	noReplay := fs.Bool("noreplay", false, "do not replay counterexamples natively")
+	var id string
+	if len(args) > 0 && !strings.HasPrefix(args[0], "-") {
+		id = args[0]
+		args = args[1:]
+	}
+	fs.Parse(args)
+	if id == "" {
+		fmt.Fprintln(os.Stderr, "usage: gosx check <ID> --tier quick|thorough")
+		return 2
+	}
+	seed := 0
+	if v := os.Getenv("VERIF_SEED"); v != "" {
+		seed, _ = strconv.Atoi(v)
+	}
+	t0 := time.Now()
+	all, err := scanHarnesses()
+	if err != nil {
+		fmt.Fprintln(os.Stderr, err)
+		return 2
+	}
+	var specs []*harnessSpec
+	for _, h := range all {
+		if h.Property != id {
+			continue
+		}
+		if h.Tier == "thorough" && *tier != "thorough" {
+			continue
+		}
+		if *only != "" && !strings.Contains(h.Func, *only) {
+			continue
+		}
+		specs = append(specs, h)
+	}
+	if len(specs) == 0 {
+		fmt.Fprintf(os.Stderr, "no harness for property %s\n", id)
+		return 2
+	}
+	known, err := loadKnown()
+	if err != nil {
+		fmt.Fprintln(os.Stderr, err)
+		return 2
+	}
+	ov, err := buildOverlay(false)
+	if err != nil {
+		fmt.Fprintln(os.Stderr, err)
+		return 2
+	}
+	patSet := map[string]bool{"github.com/free5gc/chf/zzvx": true}
+	for _, h := range specs {
+		patSet["./"+h.RelDir] = true
+		if v := h.Opts["pkgs"]; v != "" {
+			for _, p := range strings.Split(v, ",") {
+				patSet[p] = true
+			}
+		}
+	}
+	var pats []string
+	for p := range patSet {
+		pats = append(pats, p)
+	}
+	sort.Strings(pats)
+	prog, err := sx.Load(repoDir, ov, pats...)
+	if err != nil {
+		// The tree does not build with the harness: broken, not a verdict.
+		fmt.Fprintln(os.Stderr, "load failed:", err)
+		return 2
+	}
+	loadWall := time.Since(t0)
+
+	results := make([]*harnessResult, len(specs))
+	var wg sync.WaitGroup
+	sem := make(chan struct{}, *workers)
+	for i, h := range specs {
+		wg.Add(1)
+		go func(i int, h *harnessSpec) {
+			defer wg.Done()
+			sem <- struct{}{}
+			defer func() { <-sem }()
+			results[i] = runHarness(prog, h, *tier, known)
+		}(i, h)
+	}
+	wg.Wait()
+
+	// translator validation (concrete harnesses run natively and in the engine)
+	nValidated, valErr := 0, ""
+	for _, r := range results {
+		if r.Spec.Validate && r.Err == "" {
+			n, err := validateNative(r)
+			nValidated += n
+			if err != nil {
+				valErr += err.Error() + "; "
+			}
+		}
+	}
+
+	// report
+	exit := 0
+	violations := 0
+	broken := []string{}
+	var samples []interface{}
+	var knownLines []string
+	totalStates, totalInstr := 0, int64(0)
+	q := map[string]int{}
+	solverTime := 0.0
+	var funcs []funcInfo
+	seenFn := map[string]bool{}
+	assertSites := map[string]int{}
+	twins := map[string]string{}
+	replays := 0
+	bounds := map[string]interface{}{}
+	for _, r := range results {
+		if r.Err != "" {
+			broken = append(broken, r.Spec.Func+": "+r.Err)
+			continue
+		}
+		e := r.E
+		st := e.Stats
+		totalStates += st.Paths - st.Infeasible
+		totalInstr += st.Instrs
+		for _, s := range []*struct {
+			a, b, c int
+			t    time.Duration
+		}{solverStats(e)} {
+			q["sat"] += s.a
+			q["unsat"] += s.b
+			q["unknown"] += s.c
+			solverTime += s.t.Seconds()
+		}
+		for k, v := range st.AssertReached {
+			assertSites[r.Spec.Func+":"+k] = v
+		}
+		for _, f := range r.Funcs {
+			if !seenFn[f.Name] {
+				seenFn[f.Name] = true
+				funcs = append(funcs, f)
+			}
+		}
+		twins[r.Spec.Func] = r.TwinNote
+		bounds[r.Spec.Func] = map[string]interface{}{"unwind": e.Opt.Unwind, "params": e.Opt.Params, "paths": st.Paths, "complete": r.Complete}
+		for _, s := range st.Samples {
+			if len(samples) < 12 {
+				samples = append(samples, s)
+			}
+		}
+		if !r.Complete {
+			broken = append(broken, r.Spec.Func+": exploration incomplete")
+		}
+		for _, s := range st.Inconclusive {
+			broken = append(broken, r.Spec.Func+": inconclusive: "+s)
+		}
+		for msg, n := range st.UnsupportedMsgs {
+			broken = append(broken, fmt.Sprintf("%s: unsupported x%d: %s", r.Spec.Func, n, msg))
+		}
+		for _, er := range solverErrors(e) {
+			broken = append(broken, r.Spec.Func+": solver error: "+er)
+		}
+		if !r.TwinOK && !r.Spec.Validate {
+			broken = append(broken, r.Spec.Func+": vacuous: "+r.TwinNote)
+		}
+		for _, k := range e.Order {
+			f := e.Findings[k]
+			path, verdict := "", "not replayed"
+			if !*noReplay {
+				path, verdict = replayFinding(id, r.Spec, f)
+				replays++
+			} else {
+				path = writeReplayFile(id, r.Spec, f)
+			}
+			samples = append(samples, map[string]interface{}{"harness": r.Spec.Func, "finding": f, "replay": verdict})
+			switch {
+			case *noReplay || verdict == "reproduced":
+				violations++
+				fmt.Printf("VIOLATION property=%s replay=%s\n", id, path)
+				fmt.Printf("  harness=%s kind=%s name=%q site=%s\n", r.Spec.Func, f.Kind, f.Name, f.Site)
+				exit = 1
+			default:
+				broken = append(broken, fmt.Sprintf("%s: SPURIOUS counterexample (%s): %s %q @ %s replay=%s", r.Spec.Func, verdict, f.Kind, f.Name, f.Site, path))
+			}
+		}
+		var kids []string
+		for kid := range e.KnownSeen {
+			kids = append(kids, kid)
+		}
+		sort.Strings(kids)
+		for _, kid := range kids {
+			f := e.KnownSeen[kid]
+			what := kid
+			for _, k := range known {
+				if k.ID == kid {
+					what = k.ID + ": " + k.What
+				}
+			}
+			knownLines = append(knownLines, fmt.Sprintf("KNOWN-FINDING: property=%s %s", id, what))
+			samples = append(samples, map[string]interface{}{"harness": r.Spec.Func, "known_finding": kid, "witness": f.Inputs, "site": f.Site})
+		}
+	}
+	sort.Strings(knownLines)
+	seenLine := map[string]bool{}
+	for _, l := range knownLines {
+		if !seenLine[l] {
+			fmt.Println(l)
+			seenLine[l] = true
+		}
+	}
+	if valErr != "" {
+		broken = append(broken, "translator validation: "+valErr)
+	}
+	for _, b := range broken {
+		fmt.Println("BROKEN:", b)
+	}
+	if len(broken) > 0 && exit == 0 {
+		exit = 2
+	}
+	if len(samples) == 0 {
+		samples = append(samples, map[string]interface{}{"note": "no path completed"})
+	}
+	sort.Slice(funcs, func(i, j int) bool { return funcs[i].Name < funcs[j].Name })
+	wall := time.Since(t0).Seconds()
+	ev := map[string]interface{}{
+		"property_id": id, "tier": *tier, "seed": seed, "level": "model_checking", "wall_s": wall, "violations": violations,
+		"coverage": map[string]interface{}{
+			"states": max(totalStates, 0), "transitions": totalInstr,
+			"traces_validated_against_impl": nValidated + replays,
+			"samples":                       samples,
+			"functions_encoded":             funcs,
+			"bounds":                        bounds,
+			"queries":                       q,
+			"solver":                        "z3 4.8.12 (/usr/bin/z3 -in) for bit-vector queries; cvc5 1.0 --solve-bv-as-int=sum for queries with symbolic*symbolic mul/div",
+			"solver_time_s":                 solverTime,
+			"load_s":                        loadWall.Seconds(),
+			"assert_sites_reached":          assertSites,
+			"reachability_twins":            twins,
+			"harnesses":                     len(results),
+			"known_findings_witnessed":      len(seenLine),
+			"broken":                        broken,
+			"explanation":                   "bounded symbolic execution of the SSA of /repo's working tree; states = feasible paths completed, transitions = SSA instructions interpreted",
+		},
+		"assumptions": assumptionsFor(id, results),
+	}
+	os.MkdirAll(filepath.Join(verifDir, "evidence"), 0o755)
+	b, _ := json.MarshalIndent(ev, "", " ")
+	os.WriteFile(filepath.Join(verifDir, "evidence", id+".json"), b, 0o644)
+	fmt.Printf("property %s tier %s: harnesses=%d paths=%d instrs=%d queries=%v violations=%d known=%d broken=%d wall=%.1fs\n",
+		id, *tier, len(results), totalStates, totalInstr, q, violations, len(seenLine), len(broken), wall)
+	return exit
+}
+
+func solverStats(e *sx.Explorer) *struct {
+	a, b, c int
+	t    time.Duration
+} {
+	r := &struct {
+		a, b, c int
+		t    time.Duration
+	}{}
+	for _, s := range e.Solvers() {
+		r.a += s.NSat
+		r.b += s.NUnsat
+		r.c += s.NUnknown
+		r.t += s.Time
+	}
+	return r
+}
+
+func solverErrors(e *sx.Explorer) []string {
+	var out []string
+	for _, s := range e.Solvers() {
+		out = append(out, s.Errors...)
+	}
+	return out
+}
+
+func runHarness(prog *sx.Program, h *harnessSpec, tier string, known []knownEntry) (res *harnessResult) {
+	res = &harnessResult{Spec: h}
+	defer func() {
+		if r := recover(); r != nil {
+			res.Err = fmt.Sprintf("engine panic: %v", r)
+		}
+	}()
+	pkgPath := "github.com/free5gc/chf/" + filepath.ToSlash(h.RelDir)
+	fn := prog.Func(pkgPath, h.Func)
+	if fn == nil {
+		res.Err = "function not found in " + pkgPath
+		return
+	}
+	opt := h.options(tier)
+	// twin first (cheap): every assertion replaced by false must be violated
+	if !h.Validate {
+		topt := opt
+		topt.Twin = true
+		topt.StopOnFinding = true
+		te := sx.NewExplorer(prog, h.Func, topt)
+		te.Run(fn)
+		te.Close()
+		if len(te.Findings) > 0 {
+			res.TwinOK = true
+			res.TwinNote = "violated (as required)"
+		} else {
+			res.TwinNote = "twin with assert(false) was NOT violated: no assertion reachable"
+		}
+	}
+	e := sx.NewExplorer(prog, h.Func, opt)
+	for _, k := range known {
+		if k.Status != "known" || (k.Harness != "" && k.Harness != h.Func) || k.Property != h.Property {
+			continue
+		}
+		r := &sx.Region{ID: k.ID, Kind: k.Kind, Name: k.Name, Site: k.Site, PredStr: k.Region}
+		if k.Region != "" {
+			r.Pred = prog.Func(pkgPath, k.Region)
+			if r.Pred == nil {
+				res.Err = "known_findings.json: region predicate " + k.Region + " not found in " + pkgPath
+				return
+			}
+		}
+		e.Regions = append(e.Regions, r)
+	}
+	t1 := time.Now()
+	res.Complete = e.Run(fn)
+	e.Close()
+	res.Wall = time.Since(t1)
+	res.E = e
+	for f, n := range e.Stats.Funcs {
+		if f.Pkg == nil || !strings.HasPrefix(f.Pkg.Pkg.Path(), "github.com/free5gc/chf") || strings.HasPrefix(f.Name(), "ZZ") {
+			continue
+		}
+		res.Funcs = append(res.Funcs, funcInfo{Name: f.String(), Instrs: countInstrs(f), Hash: prog.SrcHash(f), Calls: n})
+	}
+	return
+}
+
+func countInstrs(f *ssa.Function) int {
+	n := 0
+	for _, b := range f.Blocks {
+		n += len(b.Instrs)
+	}
+	return n
+}
+
+// ---- replay ----
+
+type replayFile struct {
+	Property string        `json:"property"`
+	Pkg      string        `json:"pkg"` // relative package dir
+	Func     string        `json:"func"`
+	Expect   sx.Finding    `json:"expect"`
+	Inputs   []sx.InputVal `json:"inputs"`
+	Params   map[string]string `json:"params,omitempty"`
+}
+
+func writeReplayFile(id string, h *harnessSpec, f *sx.Finding) string {
+	rf := replayFile{Property: id, Pkg: h.RelDir, Func: h.Func, Expect: *f, Inputs: f.Inputs, Params: h.options(envOr("VERIF_TIER", "quick")).Params}
+	b, _ := json.MarshalIndent(rf, "", " ")
+	sum := sha256.Sum256(b)
+	dir := filepath.Join(verifDir, "replays")
+	os.MkdirAll(dir, 0o755)
+	p := filepath.Join(dir, fmt.Sprintf("%s-%s-%x.json", id, h.Func, sum[:4]))
+	os.WriteFile(p, b, 0o644)
+	return p
+}
+
+func replayFinding(id string, h *harnessSpec, f *sx.Finding) (path, verdict string) {
+	path = writeReplayFile(id, h, f)
+	verdict, _ = runReplay(path, false)
+	return
+}
+
+func cmdReplay(args []string) int {
+	if len(args) < 1 {
+		fmt.Fprintln(os.Stderr, "usage: gosx replay <file.json>")
+		return 2
+	}
+	verdict, out := runReplay(args[0], true)
+	fmt.Println(out)
+	fmt.Println("replay verdict:", verdict)
+	if verdict == "reproduced" {
+		return 1
+	}
+	if verdict == "not reproduced" {
+		return 0
+	}
+	return 2
+}
+
+func scratchDir() string {
+	d := os.Getenv("VERIF_SCRATCH")
+	if d == "" {
+		d = filepath.Join(verifDir, "scratch")
+	}
+	os.MkdirAll(d, 0o755)
+	return d
+}
+
+// nativeTest runs `go test` in /repo for pkgRel with the native overlay plus
+// an extra generated test file.
+func nativeTest(pkgRel, testSrc, runPat string, env []string, timeout time.Duration) (string, error) {
+	ov, err := buildOverlay(true)
+	if err != nil {
+		return "", err
+	}
+	sd, err := os.MkdirTemp(scratchDir(), "replay")
+	if err != nil {
+		return "", err
+	}
+	defer os.RemoveAll(sd)
+	repl := map[string]string{}
+	i := 0
+	for virt, content := range ov {
+		real := filepath.Join(sd, fmt.Sprintf("f%d_%s", i, filepath.Base(virt)))
+		i++
+		if err := os.WriteFile(real, content, 0o644); err != nil {
+			return "", err
+		}
+		repl[virt] = real
+	}
+	tf := filepath.Join(sd, "zz_replay_test.go")
+	os.WriteFile(tf, []byte(testSrc), 0o644)
+	repl[filepath.Join(repoDir, pkgRel, "zz_replay_test.go")] = tf
+	ob, _ := json.Marshal(map[string]interface{}{"Replace": repl})
+	of := filepath.Join(sd, "overlay.json")
+	os.WriteFile(of, ob, 0o644)
+	cmd := exec.Command("go", "test", "-vet=off", "-count=1", "-overlay", of, "-run", runPat, "-v", "-timeout", fmt.Sprint(timeout), "./"+pkgRel)
+	cmd.Dir = repoDir
+	cmd.Env = append(os.Environ(), "GOFLAGS=-mod=mod", "GOPROXY=off", "GOSUMDB=off", "GOTOOLCHAIN=local")
+	cmd.Env = append(cmd.Env, env...)
+	var buf bytes.Buffer
+	cmd.Stdout = &buf
+	cmd.Stderr = &buf
+	err = cmd.Run()
+	return buf.String(), err
+}
+
+func pkgName(relDir string) string {
+	// read package clause from any harness file in that dir
+	files, _ := filepath.Glob(filepath.Join(harnessDir, relDir, "*.go"))
+	for _, f := range files {
+		b, _ := os.ReadFile(f)
+		for _, l := range strings.Split(string(b), "\n") {
+			if strings.HasPrefix(l, "package ") {
+				return strings.TrimSpace(strings.TrimPrefix(l, "package "))
+			}
+		}
+	}
+	return filepath.Base(relDir)
+}
+
+func runReplay(path string, verbose bool) (verdict, output string) {
+	b, err := os.ReadFile(path)
+	if err != nil {
+		return "error: " + err.Error(), ""
+	}
+	var rf replayFile
+	if err := json.Unmarshal(b, &rf); err != nil {
+		return "error: " + err.Error(), ""
+	}
+	abs, _ := filepath.Abs(path)
+	src := fmt.Sprintf(`package %s
+
+import (
+	"testing"
+
+	vx "github.com/free5gc/chf/zzvx"
+)
+
+func TestZZReplay(t *testing.T) { vx.RunReplay(t, %q, %s) }
+`, pkgName(rf.Pkg), abs, rf.Func)
+	out, _ := nativeTest(rf.Pkg, src, "^TestZZReplay$", nil, 120*time.Second)
+	verdict = "not reproduced"
+	for _, l := range strings.Split(out, "\n") {
+		l = strings.TrimSpace(l)
+		if !strings.HasPrefix(l, "REPLAY-RESULT:") {
+			continue
+		}
+		res := strings.TrimSpace(strings.TrimPrefix(l, "REPLAY-RESULT:"))
+		switch rf.Expect.Kind {
+		case "assert":
+			if res == "assert "+strconv.Quote(rf.Expect.Name) {
+				verdict = "reproduced"
+			} else if strings.HasPrefix(res, "panic") && strings.Contains(rf.Expect.Site, " @ ") {
+				// vx.Fail after a recovered panic
+				verdict = "reproduced"
+			}
+		case "panic":
+			if strings.HasPrefix(res, "panic") {
+				verdict = "reproduced"
+			}
+		case "blocked":
+			if strings.HasPrefix(res, "timeout") || strings.HasPrefix(res, "blocked") {
+				verdict = "reproduced"
+			}
+		}
+		if verdict != "reproduced" && res != "ok" {
+			verdict = "not reproduced (native result: " + res + ")"
+		}
+	}
+	if rf.Expect.Kind == "blocked" && strings.Contains(out, "test timed out") {
+		verdict = "reproduced"
+	}
+	if !strings.Contains(out, "REPLAY-RESULT:") && verdict != "reproduced" {
+		verdict = "error: native replay produced no result"
+		verbose = true
+	}
+	if verbose {
+		output = out
+	}
+	return
+}
+
+// validateNative runs a concrete ZZV_ harness natively and compares the
+// emitted lines with the ones the engine produced.
+func validateNative(r *harnessResult) (int, error) {
+	src := fmt.Sprintf(`package %s
+
+import (
+	"testing"
+
+	vx "github.com/free5gc/chf/zzvx"
+)
+
+func TestZZValidate(t *testing.T) { vx.RunEmit(t, %s) }
+`, pkgName(r.Spec.RelDir), r.Spec.Func)
+	out, _ := nativeTest(r.Spec.RelDir, src, "^TestZZValidate$", nil, 300*time.Second)
+	var native []string
+	for _, l := range strings.Split(out, "\n") {
+		if i := strings.Index(l, "EMIT: "); i >= 0 {
+			native = append(native, l[i+6:])
+		}
+	}
+	eng := r.E.Emitted
+	if len(native) == 0 {
+		return 0, fmt.Errorf("%s: native run emitted nothing:\n%s", r.Spec.Func, tail(out, 30))
+	}
+	n := 0
+	for i := range native {
+		if i >= len(eng) || eng[i] != native[i] {
+			e := "<missing>"
+			if i < len(eng) {
+				e = eng[i]
+			}
+			return n, fmt.Errorf("%s: translator disagreement at line %d: native %q engine %q", r.Spec.Func, i, native[i], e)
+		}
+		n++
+	}
+	if len(eng) != len(native) {
+		return n, fmt.Errorf("%s: engine emitted %d lines, native %d", r.Spec.Func, len(eng), len(native))
+	}
+	return n, nil
+}
+
+func tail(s string, n int) string {
+	ls := strings.Split(s, "\n")
+	if len(ls) > n {
+		ls = ls[len(ls)-n:]
+	}
+	return strings.Join(ls, "\n")
+}
+
+func assumptionsFor(id string, results []*harnessResult) []string {
+	as := []string{
+		"go/packages + go/ssa v0.29.0 faithfully represent the source the compiler builds",
+		"gosx interpreter, reflect model and intrinsics (validated by ZZV_ translator-validation harnesses where present and by native replay of every alarm)",
+		"bounds listed under coverage.bounds; nothing outside them is claimed",
+	}
+	seen := map[string]bool{}
+	for _, r := range results {
+		if r.E == nil {
+			continue
+		}
+		for _, a := range r.E.Assumptions() {
+			if !seen[a] {
+				seen[a] = true
+				as = append(as, a)
+			}
+		}
+		if v := r.Spec.Opts["assume"]; v != "" && !seen[v] {
+			seen[v] = true
+			as = append(as, strings.ReplaceAll(v, "_", " "))
+		}
+	}
+	return as
+}
